@@ -1,7 +1,7 @@
 (* C25 -- Unacknowledged requests are retransmitted with the same identity, boundedly.
    Only statements; model Model/Rpc.v, proofs Proof/Rpc.v. *)
 From Coq Require Import ZArith List Bool.
-From TD Require Import Model.Rpc Proof.Rpc.
+From TD Require Import Model.Rpc Proof.Rpc Proof.RpcEnv.
 Import ListNotations.
 Open Scope Z_scope.
 
@@ -15,7 +15,9 @@ Theorem C25_identity : forall mx tr1 tr2 s1 s2 s3 c m q b o,
 Proof. exact c25_identity. Qed.
 Print Assumptions C25_identity.
 
-(* Bound: with MaxRetries = mx >= 1 a call is transmitted at most 1 + mx times (failed
+(* (Negative MaxRetries is not guarded by the code: it transmits twice and reports the limit;
+   excluded by 1 <= mx, Options.setDefaults maps 0 to 5.)
+   Bound: with MaxRetries = mx >= 1 a call is transmitted at most 1 + mx times (failed
    attempts included), and it returns the retry-limit error exactly when mx
    retransmissions succeeded. *)
 Theorem C25_bound : forall mx s c, 1 <= mx -> reach mx s ->
@@ -37,6 +39,38 @@ Theorem C25_quiet_after_ack : forall mx s c, 1 <= mx -> reach mx s ->
 Proof. exact c25_quiet. Qed.
 Print Assumptions C25_quiet_after_ack.
 
+(* "Re-sent every retry interval": while a call waits in the retry loop its timer is always
+   pending (armed, or fired and not yet consumed); a fired timer can always be consumed; and in
+   the timer branch, with no ack delivered and the context not cancelled, the retransmission
+   is enabled and carries the call's identity -- one more transmission per timer expiry. *)
+Theorem C25_retransmits : forall mx s c, 1 <= mx -> reach mx s ->
+  (pc (calls s c) = PSelect -> armed (calls s c) || tval (calls s c) = true) /\
+  (pc (calls s c) = PSelect -> tval (calls s c) = true -> exists s', step s (CSelTimer c) = Some s') /\
+  (pc (calls s c) = PSelTimer -> ackclosed (calls s c) = false -> rcancel (calls s c) = false ->
+     exists s1 s2, step s (CTimerGo c) = Some s1 /\
+       step s1 (CSend c (mid (calls s c)) (seq (calls s c)) (body (calls s c)) 0) = Some s2 /\
+       nsends (calls s2 c) = nsends (calls s c) + 1).
+Proof. exact c25_retransmits. Qed.
+Print Assumptions C25_retransmits.
+
+(* Quiet after ack, with the acknowledgement defined from the ENVIRONMENT's side: a NotifyAcks
+   call (XAcks l _) whose id vector l contains the msg id of a request that is waiting for its
+   ack -- wherever the id stands in l, next to unknown, finished or duplicate ids -- closes
+   that request's channel, and in every later state (any continuation tr) neither a new
+   retransmission (CTimerGo) nor the "unacknowledged" verdict of the close branch
+   (CClosedUnacked, C26) is enabled for it. The only transmission that can still follow is
+   the one whose poll had already passed (pc = PTimerGo) when the ack arrived -- inherent.
+   Residual window for results: a result counts from the completion of its handler
+   (NRetryClosed); between the handler's claim and its completion a retransmission is still
+   possible in the model and in the code. *)
+Theorem C25_quiet_after_env_ack : forall mx s s' l l2 c, 1 <= mx -> reach mx s ->
+  step s (XAcks l l2) = Some s' -> In (mid (calls s c)) l -> waiting_pc (pc (calls s c)) = true ->
+  ackclosed (calls s' c) = true /\ deliv (calls s' c) = true /\
+  forall tr s2, run s' tr = Some s2 ->
+    ackclosed (calls s2 c) = true /\ step s2 (CTimerGo c) = None /\ step s2 (CClosedUnacked c) = None.
+Proof. exact c25_env_ack. Qed.
+Print Assumptions C25_quiet_after_env_ack.
+
 (* Non-vacuity: MaxRetries = 2, two timer expiries, two retransmissions, retry limit. *)
 Definition C25_trace : list ev :=
   [CEntered 0 5 1 7; CRegistered 0; CAckWait 0; CSend 0 5 1 7 0; CSelect 0; XTimerFire 0; CSelTimer 0; CTimerGo 0;
@@ -55,3 +89,9 @@ Example C25_old_witness_blocked :
   run (init 3) (C25_old_witness_prefix ++ [CTimerGo 0]) = None /\
   exists s, run (init 3) (C25_old_witness_prefix ++ [CTimerAcked 0]) = Some s /\ nsends (calls s 0) = 1.
 Proof. vm_compute. split; [reflexivity | eexists; split; reflexivity]. Qed.
+
+(* Non-vacuity of the environment-side statement: the pending id stands behind an unknown id. *)
+Example C25_env_ack_nonvacuous :
+  exists s s', run (init 3) [CEntered 0 5 1 7; CRegistered 0; CAckWait 0; CSend 0 5 1 7 0; CSelect 0] = Some s /\
+    step s (XAcks [9; 5; 5] [5]) = Some s' /\ waiting_pc (pc (calls s 0)) = true /\ ackclosed (calls s' 0) = true.
+Proof. vm_compute. eexists. eexists. repeat split. Qed.
